@@ -657,3 +657,6 @@ func VerifFilterTrace(root *html.Node, pageURL *nurl.URL, skipUnlikely bool) ext
 
 // VerifTraceBlockT names the block record of VerifFilterTrace for callers outside the module.
 type VerifTraceBlockT = extractor.VerifTraceBlock
+
+// VerifRemoveDuplicateAttributes is domutil.RemoveDuplicateAttributes (it rewrites root in place).
+func VerifRemoveDuplicateAttributes(root *html.Node) { domutil.RemoveDuplicateAttributes(root) }
